@@ -4,6 +4,8 @@ CONSTANTS Dates = {1}
           MaxMerges = 3
           MaxAgain = 1
           Stable = TRUE
+          Zones = {0}
+          ZoneAware = TRUE
 INIT Init
 NEXT NextGen
 PROPERTY GenIsSpec
